@@ -100,6 +100,8 @@ pub fn gen_node(r: &mut Rng, tier: &str, rooms: u8, nondyadic: bool, name: &'sta
                 gen::gen_many_courses_rooms(r)
             } else if rooms == 2 && i % 20 == 13 {
                 gen::gen_fixed_room_squeeze(r)
+            } else if rooms == 2 && i % 20 == 3 {
+                gen::gen_fixed_empty_fractional_offset(r)
             } else {
                 gen::gen_instance(r, &p)
             };
@@ -462,11 +464,12 @@ pub fn gen_engine(r: &mut Rng, tier: &str, with_panic: bool, name: &'static str)
     let n = scale(tier, 400, 8000);
     (0..n)
         .map(|i| {
-            let tree = gen::gen_tree(r, if i % 3 == 0 { 40 } else { 12 }, with_panic);
-            let ns = scale(tier, 4, 10);
+            let wide = !with_panic && i % 25 == 7;
+            let tree = if wide { gen::gen_wide_tree(r) } else { gen::gen_tree(r, if i % 3 == 0 { 40 } else { 12 }, with_panic) };
+            let ns = if wide { 2 } else { scale(tier, 4, 10) };
             let scheds: Vec<Value> = (0..ns).map(|_| Sched::gen(r).to_json()).collect();
             let threads: Vec<u64> = (0..ns)
-                .map(|j| if with_panic { [2u64, 3, 4, 2][(i + j) % 4] } else { [1u64, 2, 3, 4, 8][(i + j) % 5] })
+                .map(|j| if with_panic { [2u64, 3, 4, 5, 4, 8][(i + j) % 6] } else { [1u64, 2, 3, 4, 8][(i + j) % 5] })
                 .collect();
             Case { stream: name, data: json!({"tree": tree.to_json(), "scheds": scheds, "threads": threads}) }
         })
@@ -556,11 +559,56 @@ pub fn gen_selections(_r: &mut Rng, tier: &str) -> Vec<Case> {
             v.push(Case { stream: "selections", data: json!({"n": n, "k": k}) });
         }
     }
+    // beyond the exhaustive range: every (n, k) whose enumeration is short enough, up to n = 26
+    for n in (maxn + 1)..=26 {
+        for k in 0..=(n + 1) {
+            let mut c: u128 = 1;
+            if k <= n {
+                for i in 0..k {
+                    c = c * (n - i) as u128 / (i + 1) as u128;
+                }
+            } else {
+                c = 0;
+            }
+            if c <= scale(tier, 2000, 20000) as u128 {
+                v.push(Case { stream: "selections", data: json!({"n": n, "k": k}) });
+            }
+        }
+    }
+    // binom alone for all (n, k) up to n = 40
+    for n in 0..=40usize {
+        v.push(Case { stream: "selections", data: json!({"binom_n": n}) });
+    }
     v
 }
 
 pub fn run_selections(data: &Value) -> Vec<Line> {
     use cdecao::verif::IterSelections;
+    if let Some(n) = data["binom_n"].as_u64() {
+        let n = n as usize;
+        let got = catch(|| (0..=n + 1).map(|k| verif::binom(n, k).to_string()).collect::<Vec<_>>().join(","));
+        return match got {
+            Ok(text) => {
+                // Pascal's triangle as independent oracle
+                let mut row: Vec<u128> = vec![1];
+                for _ in 0..n {
+                    let mut next = vec![1u128];
+                    for i in 1..row.len() {
+                        next.push(row[i - 1] + row[i]);
+                    }
+                    next.push(1);
+                    row = next;
+                }
+                row.push(0);
+                let exp = row.iter().map(|x| x.to_string()).collect::<Vec<_>>().join(",");
+                vec![
+                    Line::corr(&["C20"], "SB", format!("{}", n), text.clone()),
+                    Line::direct(&["C20"], text == exp, format!("binom({}, 0..={}) = {} expected {}", n, n + 1, text, exp)),
+                ]
+            }
+            Err(e) => vec![Line::direct(&["C20"], false, format!("binom({}, _) panicked: {}", n, e))],
+        };
+    }
     let n = data["n"].as_u64().unwrap() as usize;
     let k = data["k"].as_u64().unwrap() as usize;
     let items: Vec<usize> = (0..n).collect();
@@ -695,8 +743,28 @@ pub fn run_rooms(data: &Value) -> Vec<Line> {
         // rooms file: kinds with capacity = room size; duplicates merged into quantity; optionally a
         // kind with quantity 0 sharing a capacity
         let mut kinds: Vec<Value> = vec![];
-        for (i, r) in rooms.iter().enumerate() {
-            kinds.push(json!({"name": format!("K{}", i), "capacity": r, "quantity": 1 + (i % 2)}));
+        let style = data["shuffle"].as_u64().unwrap() % 3;
+        if style == 0 {
+            // one kind per room, some with spare quantity
+            for (i, r) in rooms.iter().enumerate() {
+                kinds.push(json!({"name": format!("K{}", i), "capacity": r, "quantity": 1 + (i % 2)}));
+            }
+        } else {
+            // exactly the rooms: per capacity either one entry with the quantity, or the identical
+            // entry (same name, capacity, quantity 1) listed once per room
+            let mut caps: Vec<usize> = rooms.clone();
+            caps.sort();
+            caps.dedup();
+            for cap in caps {
+                let n = rooms.iter().filter(|x| **x == cap).count();
+                if style == 1 {
+                    kinds.push(json!({"name": format!("K{}", cap), "capacity": cap, "quantity": n}));
+                } else {
+                    for _ in 0..n {
+                        kinds.push(json!({"name": format!("K{}", cap), "capacity": cap, "quantity": 1}));
+                    }
+                }
+            }
         }
         if data["zeroq"].as_bool().unwrap() && !rooms.is_empty() {
             kinds.push(json!({"name": "Empty", "capacity": rooms[0], "quantity": 0}));
